@@ -196,15 +196,20 @@ static void mimeblob(const unsigned maxLen, const bool printable)
 extern "C" void c34_mimeblob(void) { mimeblob(NFUN - 1, false); }
 extern "C" void c34_mimeblob_printable(void) { mimeblob(NFUN, true); }
 
-extern "C" void c34_username(void)
+static bool onlyNamesWithSpace = false; // set by c34_known_username_space only
+static void username(const unsigned minLen, const unsigned maxLen)
 {
     vf_quiet();
-    unsigned n; char *d = datum(0, NFUN - 2, n);
-    // KNOWN-FINDING candidate: Format::QuoteUrlEncodeUsername ("Safely URL-encode a username") is QuoteMimeBlob, which leaves
-    // a space (0x20) raw. The built-in squid/common/combined/icap log formats print the user name as a bare, space-delimited
-    // field, so a user name containing a space ("foo bar" is a legal Basic/Digest user name) adds a field to the record.
-    // Excluded input class: user names containing a space. Without this assumption the assertion marked (*) fails.
-    for (unsigned i = 0; i < n; ++i) vf_assume(d[i] != ' ');
+    unsigned n; char *d = datum(minLen, maxLen, n);
+    // KNOWN FINDING C34-username-space (known_findings.json): Format::QuoteUrlEncodeUsername ("Safely URL-encode a username")
+    // is QuoteMimeBlob, which leaves a space (0x20) raw. The built-in squid/common/combined/icap log formats (and %[un of the
+    // default "squid" logformat) print the user name as a bare, space-delimited field, so a user name containing a space
+    // ("foo bar" is a legal Basic/Digest user name) adds a field to the record: the assertion marked (*) fails.
+    // The class (user names containing a space) is examined by its own entry, c34_known_username_space; every other entry
+    // excludes exactly this class.
+    int hasSpace = 0;
+    for (unsigned i = 0; i < n; ++i) hasSpace |= (d[i] == ' ');
+    vf_assume((hasSpace != 0) == onlyNamesWithSpace);
     char *q = Format::QuoteUrlEncodeUsername(d);
     vf_assert((q == nullptr) == (n == 0), "no user name (NULL) exactly for the empty name");
     vf_assert(Format::QuoteUrlEncodeUsername(nullptr) == nullptr, "no user name for NULL");
@@ -222,6 +227,9 @@ extern "C" void c34_username(void)
         vf_reach("none");
     WITNESS_POINT();
 }
+extern "C" void c34_username(void) { username(0, NFUN - 2); }
+// KNOWN FINDING (known_findings.json, C34-username-space): user names of 1..2 bytes containing a space
+extern "C" void c34_known_username_space(void) { onlyNamesWithSpace = true; username(1, 2); }
 
 extern "C" void c34_quoted_string(void)
 {
@@ -268,15 +276,18 @@ static bool hasUnquotedShellSeparator(const char *d, const unsigned n)
     return otherWs && !space;
 }
 
-extern "C" void c34_shell(void)
+static bool onlyBareWordsWithWhitespace = false; // set by c34_known_shell_whitespace only
+static void shell(const unsigned minLen, const unsigned maxLen)
 {
     vf_quiet();
-    unsigned n; char *d = datum(0, NFUN, n);
-    // KNOWN-FINDING candidate: strwordquote() puts the word in double quotes only when it contains a space (strchr(str,' ')) and
-    // never escapes TAB, VT or FF. A datum with one of those and no space is emitted as a bare word with the raw
-    // whitespace in it, which every shell-style tokenizer (including Squid's own strwordtok(): xisspace) splits in two.
-    // Excluded input class: data containing TAB/VT/FF but no space. Without this assumption the assertion marked (*) fails.
-    vf_assume(!hasUnquotedShellSeparator(d, n));
+    unsigned n; char *d = datum(minLen, maxLen, n);
+    // KNOWN FINDING C34-shell-quote-whitespace (known_findings.json): strwordquote() puts the word in double quotes only when it
+    // contains a space (strchr(str,' ')) and never escapes TAB, VT or FF. A datum with one of those and no space is emitted
+    // as a bare word with the raw whitespace in it, which every shell-style tokenizer (including Squid's own strwordtok():
+    // xisspace) splits in two: the assertion marked (*) fails (and with it the round trip).
+    // The class (data containing TAB/VT/FF but no space) is examined by its own entry, c34_known_shell_whitespace; every
+    // other entry (also the %/ layout of c34_record_url_shell) excludes exactly this class.
+    vf_assume(hasUnquotedShellSeparator(d, n) == onlyBareWordsWithWhitespace);
     MemBuf mb; mb.init();
     strwordquote(&mb, d);
     const char *q = mb.content();
@@ -292,6 +303,9 @@ extern "C" void c34_shell(void)
     mb.clean();
     WITNESS_POINT();
 }
+extern "C" void c34_shell(void) { shell(0, NFUN); }
+// KNOWN FINDING (known_findings.json, C34-shell-quote-whitespace): data of 1..2 bytes with TAB/VT/FF and no space
+extern "C" void c34_known_shell_whitespace(void) { onlyBareWordsWithWhitespace = true; shell(1, 2); }
 
 // ---------------------------------------------------------------- whole records through Format::parse()/assemble()
 // The datum is the client's request header block (%>h = al->headers.request, a field for which assemble() asks for quoting).
@@ -323,7 +337,7 @@ static void record(const unsigned first, const unsigned last)
     const unsigned maxLen = (L.kind == 'd' || L.kind == 'u' || L.kind == 'U') ? NURL : L.kind == 'm' ? NRECM : NREC;
     unsigned n; char *d = datum(1, maxLen, n);   // an empty datum is logged as "-"
     if (L.kind == 's')
-        vf_assume(!hasUnquotedShellSeparator(d, n)); // KNOWN-FINDING candidate: see c34_shell
+        vf_assume(!hasUnquotedShellSeparator(d, n)); // known finding C34-shell-quote-whitespace: see shell()
     Format::Format fmt("c34");
     const bool parsed = fmt.parse(L.def);
     vf_assert(parsed, "logformat definition accepted");
